@@ -1422,10 +1422,23 @@ def judge_c19_group(cases, lab):
 _C20_PENDING = []
 
 
+def _crepr(v):
+    """repr() that does not depend on the process (set iteration order follows the hash seed)."""
+    if isinstance(v, (set, frozenset)):
+        return "{" + ", ".join(sorted(_crepr(x) for x in v)) + "}"
+    if isinstance(v, list):
+        return "[" + ", ".join(_crepr(x) for x in v) + "]"
+    if isinstance(v, tuple):
+        return "(" + ", ".join(_crepr(x) for x in v) + ("," if len(v) == 1 else "") + ")"
+    if isinstance(v, dict):
+        return "{" + ", ".join("%s: %s" % (_crepr(k), _crepr(x)) for k, x in v.items()) + "}"
+    return repr(v)
+
+
 def _plain(out):
     """Outcome in the process-independent form the child interpreter reports."""
     if out["ok"]:
-        return {"ok": True, "v": repr(out["v"])}
+        return {"ok": True, "v": _crepr(out["v"])}
     if out.get("cls") == "KeyNotFound":
         return {"ok": False, "cls": "KeyNotFound", "key": out.get("key")}
     return {"ok": False, "cls": out.get("cls")}
